@@ -3,7 +3,7 @@ import vlib
 from vlib import parse_val
 import searchgen as sg
 
-NEED_RG = False
+NEED_RG = True
 MANIFEST = dict(
     text="Coq theorems (Props/C03.v): SliceByLine::run equals the grep reference model grep_ref for every input, "
          "configuration (A, B, invert, passthru, line numbers, stop-on-nonmatch) and matcher: slice_slow_eq_ref (slow line "
@@ -105,8 +105,42 @@ def run(ctx):
         if c != r:
             ctx.violation("search_slice differs from the grep reference model",
                           dict(kind=302, line=line, case=sg.describe(case), code=c, ref=r))
+    cli_separators(ctx)
     ctx.cov["features"] = feat
     ctx.cov["rule"] = "random searcher configuration x scripted matcher x line-structured input; non-trivial = has a match and more than 3 events"
+
+
+def cli_separators(ctx):
+    """group separators at the command line: with context in one or both directions the output for several files is the
+    per-file outputs with exactly one `--` line between two non-empty ones"""
+    import os
+    import subprocess
+    import tempfile
+    rng = ctx.rng
+    runs = 0
+    with tempfile.TemporaryDirectory(dir=vlib.CACHE) as d:
+        for i in range(ctx.count(30)):
+            files = []
+            for k in range(rng.randint(2, 4)):
+                lines = [bytes(rng.choice(b"ab x") for _ in range(rng.randint(0, 4))) for _ in range(rng.randint(1, 9))]
+                f = os.path.join(d, "s%d_%d" % (i, k))
+                open(f, "wb").write(b"\n".join(lines) + b"\n")
+                files.append(f)
+            ctxflags = rng.choice([["-A", "1"], ["-B", "1"], ["-A", "2"], ["-B", "2"], ["-C", "1"], ["-C", "2", "-A", "0"], ["-A", "1", "-B", "2"]])
+            if i < 3:
+                ctxflags = [["-A", "1"], ["-B", "1"], ["-C", "2", "-A", "0"]][i]
+            pat = rng.choice(["a", "b", "ab", "x"])
+            base = [vlib.RG, "--no-config", "--color", "never", "--no-heading", "-H", "-n", "-j1"] + ctxflags + ["-e", pat]
+            whole = subprocess.run(base + files, stdin=subprocess.DEVNULL, stdout=subprocess.PIPE, stderr=subprocess.PIPE).stdout
+            parts = [subprocess.run(base + [f], stdin=subprocess.DEVNULL, stdout=subprocess.PIPE, stderr=subprocess.PIPE).stdout for f in files]
+            runs += 1 + len(files)
+            exp = b"--\n".join(x for x in parts if x)
+            ctx.note_case("sep%d" % i + repr((ctxflags, pat)), sum(1 for x in parts if x) > 1)
+            if whole != exp:
+                ctx.violation("rg over several files does not print the per-file results separated by exactly one `--` line",
+                              dict(kind="cli-separators", flags=ctxflags, pattern=pat, files=[open(f, "rb").read().decode("latin1") for f in files],
+                                   got=repr(whole), expected=repr(exp)))
+    ctx.cov["cli_separator_runs"] = runs
 
 
 def replay(ctx, data):
